@@ -219,6 +219,24 @@ def run_grain(rec, F, cnt, sig):
         drift.append(float(gg.pbm.ThirdMoment()))
         return origN()
     gg.Normalize = normalize_tap
+    # unpinned growth law must conserve volume in the semi-discrete sense: with dR/dt = K (1/Rcr - 1/R) the volume rate is
+    # proportional to sum N R^2 dR/dt = K (M2/Rcr - M1), so the critical radius implied by the returned field must make it vanish
+    origG = gg.grainGrowth
+
+    def gg_tap(x):
+        out = np.asarray(origG(x), dtype=float)
+        Kc = gg.alpha * gg.M * gg.gbe
+        Rb = np.asarray(gg.pbm.PSDbounds, dtype=float)
+        inv = out / Kc + 1.0 / Rb
+        cnt['growth_law_checks'] = cnt.get('growth_law_checks', 0) + 1
+        if np.max(np.abs(inv - inv[0])) > 1e-9 * abs(inv[0]):
+            F.add('C18.growth_law', 'grain growth rate is not K (1/Rcr - 1/R) with one critical radius for all sizes', what='law')
+        else:
+            m0, m1, m2, m3 = (float(np.sum(np.asarray(x, dtype=float) * np.asarray(gg.pbm.PSDsize, dtype=float) ** k)) for k in range(4))
+            if m1 > 0 and abs(m2 * inv[0] - m1) > 1e-9 * m1:
+                F.add('C18.growth_law_conserves_volume', f'unpinned growth law does not conserve grain volume: sum N R^2 dR/dt is proportional to M2/Rcr - M1 = {m2 * inv[0] - m1!r} (M1 = {m1!r}, implied Rcr = {1 / inv[0]!r}, M2/M1 = {m2 / m1!r})', what='volume')
+        return out
+    gg.grainGrowth = gg_tap
     origC = gg.constrainedGrowth
 
     def cg_tap(growthRate, z=0):
